@@ -132,6 +132,18 @@ def stepC07 (s : DSt) (op : String) (got : String) : StepResult DSt :=
     | some k => { st := { s with m := setCap s.m k, hist := Ev.cap k :: s.hist }, expected := some "ok",
                   spec := crash, cov := [if k < s.m.cs.length then "cap-lower" else "cap-other"] }
     | none => bad s
+  | ["mcap", k, fm] =>
+    -- cs/config through the management module: fm = 0 no Flags/Mask, 1 both, 2 Flags only
+    let cap := k.toNat?
+    let r := csConfig s.m cap (fm != "0") (fm == "1")
+    let echo := match r.2.2 with | some e => toString e | none => "-"
+    -- spec side: the capacity management acknowledged (status 200 with the Capacity echoed)
+    let hist' := match got.splitOn " " with
+      | ["200", e] => match e.toNat? with | some e => Ev.cap e :: s.hist | none => s.hist
+      | _ => s.hist
+    { st := { s with m := r.1, hist := hist' }, expected := some s!"{r.2.1} {echo}", spec := crash,
+      cov := [if fm == "2" then "mcap-409" else if cap.isNone then "mcap-nocap" else if fm == "1" then "mcap-flags" else "mcap-plain"] ++
+             (match cap with | some c => if fm != "2" && c < s.m.cs.length then ["cap-lower"] else [] | none => []) }
   | ["adv", d] =>
     match d.toNat? with
     | some d => { st := { s with m := advance s.m (msNs d), now := s.now + msNs d }, expected := some "ok", spec := crash }
